@@ -83,6 +83,10 @@ func (k Keeper) OpenConsolidate(ctx sdk.Context, existingMtp *types.MTP, newMtp 
 		return nil, err
 	}
 
+	if err = k.CheckHealthAfterOpen(ctx, creator, existingMtp.Id, baseCurrency); err != nil {
+		return nil, err
+	}
+
 	return &types.MsgOpenResponse{
 		Id: existingMtp.Id,
 	}, nil
